@@ -42,7 +42,14 @@ func (q qer) String() string {
 		qosLevel, q.ulStatus, q.dlStatus)
 }
 
-func (q *qer) parseQER(ie1 *ie.IE, seid uint64) error {
+func (q *qer) parseQER(ie1 *ie.IE, seid uint64) (err error) {
+	// see parsePDR: a malformed IE must reject the request, not crash the agent.
+	defer func() {
+		if r := recover(); r != nil {
+			err = ErrOperationFailedWithReason("parse QER", fmt.Sprint("malformed IE: ", r))
+		}
+	}()
+
 	qerID, err := ie1.QERID()
 	if err != nil {
 		logger.PfcpLog.Errorln("could not read QER ID")
